@@ -316,7 +316,7 @@ func genC18DL(rt *rapid.T) c18DL {
 		}
 		c.Steps = append(c.Steps, s)
 	}
-	c.Final = rapid.SampledFrom([]string{"active-read", "active-write", "none"}).Draw(rt, "final")
+	c.Final = rapid.SampledFrom([]string{"active-read", "active-write", "during-read-past", "during-read-future", "during-write-past", "during-write-future", "none"}).Draw(rt, "final")
 	c.FinalD = rapid.SampledFrom([]time.Duration{time.Millisecond, time.Second, 7 * time.Second}).Draw(rt, "finalD")
 	return c
 }
@@ -500,6 +500,46 @@ func runC18DL(t fataler, c c18DL) (string, c18DLResult) {
 		e.sleep(time.Second)
 		if cl, _ := lc.Lib.Closed(); !cl {
 			return "a write deadline fired during an active Write but the connection was not closed", res
+		}
+	}
+	// a deadline set (in the past or the near future) from another goroutine WHILE a call is blocked
+	if strings.HasPrefix(c.Final, "during-") {
+		write := strings.Contains(c.Final, "write")
+		past := strings.HasSuffix(c.Final, "past")
+		var err error
+		var d <-chan struct{}
+		if write {
+			lc.End.SetInBudget(0)
+			d = e.Call(func() { _, err = nc.Write(make([]byte, 9000)) })
+		} else {
+			d = e.Call(func() { _, err = nc.Read(make([]byte, 8)) })
+		}
+		synctest.Wait() // the call is blocked now
+		e.sleep(250 * time.Millisecond)
+		start := time.Now()
+		wait := time.Duration(0)
+		dl := start.Add(-time.Second)
+		if !past {
+			wait = c.FinalD
+			dl = start.Add(c.FinalD)
+		}
+		if write {
+			nc.SetWriteDeadline(dl)
+		} else {
+			nc.SetReadDeadline(dl)
+		}
+		if !within(d, wait+time.Second) {
+			return fmt.Sprintf("%s: a deadline (%v from now) set while the call was blocked did not end it within 1 s of the deadline", c.Final, wait), res
+		}
+		if err == nil {
+			return c.Final + ": the blocked call returned nil", res
+		}
+		if el := time.Since(start); el < wait {
+			return fmt.Sprintf("%s: the call failed after %v, before its deadline %v: %v", c.Final, el, wait, err), res
+		}
+		e.sleep(time.Second)
+		if cl, _ := lc.Lib.Closed(); !cl {
+			return c.Final + ": a deadline fired during an active call but the connection was not closed", res
 		}
 	}
 	if ps := e.Panics(); len(ps) > 0 {
